@@ -193,7 +193,8 @@ PROP = dict(
          "there is turned into a case. distinct = distinct inputs; non-trivial = order >= 2 (encoders), non-zero mask and source "
          "(pdep), min < max (segment).",
     class_names={0: "pdep", 1: "encode_2d_slow", 2: "encode_2d cell", 3: "encode_3d cell", 4: "all cells 2-D", 5: "all cells 3-D",
-                 6: "segment Ok", 7: "segment panic", 8: "segment hang", 9: "encoder panic"},
+                 6: "segment Ok (factor used as computed)", 7: "segment panic", 8: "segment hang", 9: "encoder panic",
+                 10: "segment Ok (nextafter loop entered)"},
     trusted_base=[
         "axioms: none for the curve, pdep and encoder theorems (closed under the global context); the segment_to_segment "
         "theorems (C08_seg_*, C08_bits_are_valid_floats) use Flocq 4.1 and therefore the standard real-number axioms of Coq: "
@@ -201,8 +202,9 @@ PROP = dict(
         "FunctionalExtensionality.functional_extensionality_dep, Classical_Prop.classic",
         "Flocq 4.1 (BinarySingleNaN: Bminus/Bmult/Bdiv/Bleb correctness; PrimFloat: SpecFloat rounding = Flocq rounding)",
         "the x86 PDEP instruction = pdep_u64_fallback (compared on every pdep case; the model is the fallback loop)",
-        "modelled, not verified: termination of the nextafter loop of segment_to_segment (the theorems are about returned "
-        "factors; every generated case returns within the model's fuel of 200 iterations, a hang is reported as a violation)",
+        "modelled, not verified: that the model's fuel constant (200 iterations) suffices for the nextafter loop of "
+        "segment_to_segment (C08_seg_terminates proves that a sufficient fuel exists; every generated case returns within 200, "
+        "an implementation hang is reported as a violation); check_all (exhaustive-table check of the run glue) has no soundness lemma",
     ],
     assumptions=[
         "encoders are called with x, y, z < 2^order and order <= MAX_ORDER (32 / 21), as HilbertCurve::partition guarantees",
@@ -221,14 +223,16 @@ MANIFEST = dict(
          "(12-bit chunks, zero-padded last chunk) and encode_3d return exactly that curve's index for all orders <= 32 / 21 "
          "(the pinned encode_2d is refuted at order 32 by a kept witness); segment_to_segment is monotone and maps "
          "[min,max] into [0,2^order-1] for all finite intervals (Flocq), with the factor shown to be a valid finite non-negative "
-         "float; the pinned uncapped factor is shown never to leave its loop on a subnormal-width interval. The model is "
+         "float and its nextafter loop to terminate; the pinned uncapped factor is shown never to leave its loop on a "
+         "subnormal-width interval; the per-cell check applied to implementation outputs is proved to accept every indexing that "
+         "has the property. The model is "
          "compared with the implementation on generated inputs each run; exhaustive sweeps (orders <= 12 / 7 in the thorough "
          "tier) check bijectivity, adjacency and the recurrence directly on the implementation.",
     design_ref="DESIGN.md §7 C08",
     note="Trusted: Coq kernel; Flocq 4.1 and the real-number axioms for the float lemmas only; the model<->code tie is the "
          "translator (tables, masks, limits, the shapes of the loops and of the two repaired expressions) plus differential runs "
-         "(3k/24k cases); PDEP hardware = fallback is tested, not proved; termination of the nextafter loop is checked per case, "
-         "not proved.",
+         "(3k/24k cases); PDEP hardware = fallback is tested, not proved; the nextafter loop is proved to terminate, the "
+         "model's concrete fuel bound is checked per case.",
     technique="Coq proof (induction on the order over a finite table certificate; Flocq for the float lemmas) + translator + "
               "model/implementation correspondence + exhaustive sweeps of small orders",
 )
